@@ -12,6 +12,10 @@ with the model).
 * for an instance created as `Cls[X]()`, the class parameters are replaced by `X` first (`subst`), so a value at a
   `T`-annotated position is demanded to be accepted iff it conforms to `X`.
 * the specification has no state between calls: bindings of one call never influence another call or instance.
+* a `Union` whose TypeVars all sit inside ONE container alternative (`Union[List[N], List[str]]`): the alternatives are
+  looked at one by one, each from the bindings the call had when the union was reached.  Only an alternative that accepts
+  the value matches its elements against TypeVars; an alternative that fails (wrong container, constraint, bound, class)
+  contributes nothing — no binding is left behind (`altVerdict`).
 -/
 namespace PedVerif.TypeVars.Spec
 open PedVerif.TypeVars
@@ -63,6 +67,11 @@ def conformsAny (env : Env) : List A → Val → Bool
   | a :: as, v => conforms env a v || conformsAny env as v
 end
 
+/-- the TypeVar-free alternatives of a union -/
+def closedOnly : List A → List A
+  | [] => []
+  | a :: as => if closed a then a :: closedOnly as else closedOnly as
+
 /-- first runtime class seen per TypeVar in this call -/
 abbrev Seen := List (TVId × ClsId)
 def Seen.get? : Seen → TVId → Option ClsId
@@ -73,7 +82,30 @@ inductive W where
   | cont (s : Seen)
   | stop (v : Verdict)
 
-/-- a value met at a position annotated with the TypeVar `t` -/
+/-- a `Union` outside the TypeVar-free and the `Optional[...]` forms, `ws` the walks of its alternatives, each started from `s`.
+    Claimed when exactly one alternative `x` mentions TypeVars and `x` is a container (not a bare TypeVar):
+    * `x` accepts: its bindings count — unless a TypeVar-free alternative accepts as well and `x` bound something
+      (two readings, not claimed);
+    * `x` fails on a constraint / bound / class / shape: it contributes NOTHING, the TypeVar-free alternatives decide;
+    * `x` meets a value of an unrelated class for an already tied TypeVar: mismatch when no other alternative accepts
+      (not claimed when one does). -/
+def altVerdict (isClosed : A → Bool) (isTV : A → Bool) (closedAccepts : Bool) (ms : List A) (s : Seen) (ws : List W) : W :=
+  match (ms.zip ws).filter (fun p => !isClosed p.1) with
+  | [(x, w)] =>
+      if isTV x then .stop .unclaimed else
+      match w with
+      | .cont s' => if closedAccepts && s' != s then .stop .unclaimed else .cont s'
+      | .stop .reject => if closedAccepts then .cont s else .stop .reject
+      | .stop .tvm => if closedAccepts then .stop .unclaimed else .stop .tvm
+      | .stop .tvmInUnion => if closedAccepts then .stop .unclaimed else .stop .tvmInUnion
+      | .stop _ => .stop .unclaimed
+  | _ => .stop .unclaimed
+
+/-- a value met at a position annotated with the TypeVar `t`.
+    CHOICE (the property text says only "constraints ... are honoured"): for a constrained TypeVar the runtime class of the value must BE
+    one of the constraints — a `bool` at `TypeVar('TC', int, str)` is demanded to be rejected.  This is the reading of the library's
+    own documentation and tests (`type(obj) in constraints`); a static checker following PEP 484 would solve `TC := int` for a `bool`.
+    A change of the library to the subclass reading would show up as a violation of THIS specification and has to be decided then. -/
 def walkTV (env : Env) (t : TVId) (v : Val) (s : Seen) : W :=
   let c := v.typeOf env
   let info := env.tv t
@@ -134,14 +166,21 @@ def walkZip (env : Env) : List A → List Val → Seen → W
 /-- a TypeVar-free union: conformance.  `Optional[a]` with TypeVars in `a`: `None`, or a value for `a`.
     Any other union that mentions a TypeVar is not in the property's vocabulary. -/
 def walkUnion (env : Env) : List A → Val → Seen → W
+  | [], _, _ => .stop .reject
   | [a, b], v, s =>
       if closed a && closed b then (if conforms env a v || conforms env b v then .cont s else .stop .reject)
       else if isNoneCls env b && !closed a then
         (if v.typeOf env == env.noneCls then .cont s else inOptional a.isTV (walk env a v s))
       else if isNoneCls env a && !closed b then
         (if v.typeOf env == env.noneCls then .cont s else inOptional b.isTV (walk env b v s))
-      else .stop .unclaimed
-  | ms, v, s => if closedL ms then (if conformsAny env ms v then .cont s else .stop .reject) else .stop .unclaimed
+      else altVerdict closed A.isTV (conformsAny env (closedOnly [a, b]) v) [a, b] s [walk env a v s, walk env b v s]
+  | a :: rest, v, s =>
+      if closedL (a :: rest) then (if conformsAny env (a :: rest) v then .cont s else .stop .reject)
+      else altVerdict closed A.isTV (conformsAny env (closedOnly (a :: rest)) v) (a :: rest) s (walk env a v s :: walkEach env rest v s)
+/-- every alternative of a union walked on its own, each from the same bindings -/
+def walkEach (env : Env) : List A → Val → Seen → List W
+  | [], _, _ => []
+  | a :: as, v, s => walk env a v s :: walkEach env as v s
 end
 
 mutual
@@ -165,8 +204,15 @@ def optionalForm (env : Env) : List A → Bool
   | [a, b] => isNoneCls env a || isNoneCls env b
   | _ => false
 
+/-- exactly one alternative mentions TypeVars, and it is a container (not a bare TypeVar, not a union) -/
+def altForm (ms : List A) : Bool :=
+  match ms.filter (fun a => !closed a) with
+  | [x] => !x.isTV && (match x with | .union _ => false | _ => true)
+  | _ => false
+
 mutual
-/-- the annotation is in the property's vocabulary: every union is TypeVar-free or an `Optional[...]` -/
+/-- the annotation is in the property's vocabulary: every union is TypeVar-free, an `Optional[...]`, or has its TypeVars inside
+    one container alternative -/
 def claimable (env : Env) : A → Bool
   | .tv _ => true
   | .cls _ => true
@@ -175,7 +221,7 @@ def claimable (env : Env) : A → Bool
   | .dictOf k w => claimable env k && claimable env w
   | .tupleOf items => claimableL env items
   | .tupleVar a => claimable env a
-  | .union ms => (closedL ms || optionalForm env ms) && claimableL env ms
+  | .union ms => (closedL ms || optionalForm env ms || altForm ms) && claimableL env ms
   | .typeOf _ => true
 def claimableL (env : Env) : List A → Bool
   | [] => true
@@ -239,6 +285,111 @@ def sharedAcrossChecks : List (A × Val) → Bool
   | [] => false
   | (a, _) :: rest => (tvsOf a).any (fun t => rest.any (fun bw => (tvsOf bw.1).contains t)) || sharedAcrossChecks rest
 
+/-! #### union alternatives (classification only)
+    `walkEnd`: the bindings the walk of one annotation has made when it ends or stops.  `leaks`: somewhere in the walk a union is
+    reached whose TypeVar alternative FAILS after it has tied a TypeVar, while a TypeVar-free alternative accepts the value:
+    the specification forgets what the failed alternative tied, the code keeps it (`_check_union` hands one dict to every member). -/
+
+def endAllWith (w : Val → Seen → W) (e : Val → Seen → Seen) : List Val → Seen → Seen
+  | [], s => s
+  | x :: xs, s => match w x s with
+      | .cont s' => endAllWith w e xs s'
+      | .stop _ => e x s
+def endPairsWith (wk : Val → Seen → W) (ek : Val → Seen → Seen) (ww : Val → Seen → W) (ew : Val → Seen → Seen) :
+    List (Val × Val) → Seen → Seen
+  | [], s => s
+  | (x, y) :: rest, s => match wk x s with
+      | .cont s' => (match ww y s' with
+          | .cont s'' => endPairsWith wk ek ww ew rest s''
+          | .stop _ => ew y s')
+      | .stop _ => ek x s
+
+mutual
+def walkEnd (env : Env) : A → Val → Seen → Seen
+  | .tv t, v, s => (match walkTV env t v s with | .cont s' => s' | .stop _ => s)
+  | .listOf a, v, s => (match v with | .list xs => endAllWith (walk env a) (walkEnd env a) xs s | _ => s)
+  | .tupleVar a, v, s => (match v with | .tuple xs => endAllWith (walk env a) (walkEnd env a) xs s | _ => s)
+  | .dictOf k w, v, s =>
+      (match v with | .dict kvs => endPairsWith (walk env k) (walkEnd env k) (walk env w) (walkEnd env w) kvs s | _ => s)
+  | .tupleOf items, v, s =>
+      (match v with | .tuple xs => if xs.length != items.length then s else endZip env items xs s | _ => s)
+  | .union ms, v, s => (match walkUnion env ms v s with | .cont s' => s' | .stop _ => s)
+  | .cls _, _, s => s
+  | .any, _, s => s
+  | .typeOf _, _, s => s
+def endZip (env : Env) : List A → List Val → Seen → Seen
+  | a :: as, x :: xs, s => (match walk env a x s with
+      | .cont s' => endZip env as xs s'
+      | .stop _ => walkEnd env a x s)
+  | _, _, s => s
+end
+
+/-- at this union: the one TypeVar alternative fails on a constraint / bound / class after having tied a TypeVar, and a
+    TypeVar-free alternative accepts -/
+def altLeak (env : Env) (ms : List A) (v : Val) (s : Seen) : Bool :=
+  altForm ms && conformsAny env (closedOnly ms) v &&
+  (ms.filter (fun a => !closed a)).any (fun x =>
+    (match walk env x v s with | .stop .reject => true | _ => false) && walkEnd env x v s != s)
+
+def leaksAllWith (w : Val → Seen → W) (l : Val → Seen → Bool) : List Val → Seen → Bool
+  | [], _ => false
+  | x :: xs, s => l x s || (match w x s with | .cont s' => leaksAllWith w l xs s' | .stop _ => false)
+def leaksPairsWith (wk : Val → Seen → W) (lk : Val → Seen → Bool) (ww : Val → Seen → W) (lw : Val → Seen → Bool) :
+    List (Val × Val) → Seen → Bool
+  | [], _ => false
+  | (x, y) :: rest, s => lk x s || (match wk x s with
+      | .cont s' => lw y s' || (match ww y s' with
+          | .cont s'' => leaksPairsWith wk lk ww lw rest s''
+          | .stop _ => false)
+      | .stop _ => false)
+
+mutual
+def leaks (env : Env) : A → Val → Seen → Bool
+  | .listOf a, v, s => (match v with | .list xs => leaksAllWith (walk env a) (leaks env a) xs s | _ => false)
+  | .tupleVar a, v, s => (match v with | .tuple xs => leaksAllWith (walk env a) (leaks env a) xs s | _ => false)
+  | .dictOf k w, v, s =>
+      (match v with | .dict kvs => leaksPairsWith (walk env k) (leaks env k) (walk env w) (leaks env w) kvs s | _ => false)
+  | .tupleOf items, v, s =>
+      (match v with | .tuple xs => if xs.length != items.length then false else leaksZip env items xs s | _ => false)
+  | .union ms, v, s => altLeak env ms v s || leaksMembers env ms v s
+  | .tv _, _, _ => false
+  | .cls _, _, _ => false
+  | .any, _, _ => false
+  | .typeOf _, _, _ => false
+def leaksZip (env : Env) : List A → List Val → Seen → Bool
+  | a :: as, x :: xs, s => leaks env a x s || (match walk env a x s with
+      | .cont s' => leaksZip env as xs s'
+      | .stop _ => false)
+  | _, _, _ => false
+/-- a leak inside an alternative -/
+def leaksMembers (env : Env) : List A → Val → Seen → Bool
+  | [], _, _ => false
+  | a :: as, v, s => leaks env a v s || leaksMembers env as v s
+end
+
+def leaksChecks (env : Env) : List (A × Val) → Seen → Bool
+  | [], _ => false
+  | (a, v) :: rest, s => leaks env a v s || (match walk env a v s with
+      | .cont s' => leaksChecks env rest s'
+      | .stop _ => false)
+
+mutual
+/-- a union with a TypeVar alternative that mentions one of the TypeVars `ks` -/
+def altMentions (ks : List TVId) : A → Bool
+  | .listOf a => altMentions ks a
+  | .tupleVar a => altMentions ks a
+  | .dictOf k w => altMentions ks k || altMentions ks w
+  | .tupleOf items => altMentionsL ks items
+  | .union ms => (altForm ms && (tvsOfL ms).any ks.contains) || altMentionsL ks ms
+  | .tv _ => false
+  | .cls _ => false
+  | .any => false
+  | .typeOf _ => false
+def altMentionsL (ks : List TVId) : List A → Bool
+  | [] => false
+  | a :: as => altMentions ks a || altMentionsL ks as
+end
+
 def regions (env : Env) (earlier : List Call) (c : Call) : List String :=
   let r1 := if specCall env c == .tvmInUnion then ["mismatchInsideUnionIsTypeCheck"] else []
   let r2 := match c.kind with
@@ -250,7 +401,15 @@ def regions (env : Env) (earlier : List Call) (c : Call) : List String :=
               earlier.any (fun e => e.inst == c.inst && (callTVs e).contains t))
         then ["methodLevelTypeVarLeaks"] else []
     | _ => []
-  r1 ++ r2 ++ r3
+  -- what a FAILED alternative of a union tied stays in the dict of the call
+  let r4 := if leaksChecks env (substChecks (match c.kind with | .genericInstance _ g => g | _ => []) c.checks) []
+            then ["failedUnionAlternativeLeavesBinding"] else []
+  -- `Cls[X]()`: a value that does not conform to `X` inside the `T` alternative raises the mismatch although another alternative accepts
+  let r5 := match c.kind with
+    | .genericInstance _ g =>
+        if !g.isEmpty && c.checks.any (fun av => altMentions (keysOf g) av.1) then ["mismatchInUnionAlternativeAborts"] else []
+    | _ => []
+  r1 ++ r4 ++ r5 ++ r2 ++ r3
 
 def regionsHistory (env : Env) : List Call → List Call → List (List String)
   | _, [] => []
@@ -277,5 +436,39 @@ def regionsBody (env : Env) (earlier : List Call) : List Tree → List (List Str
   | [] => []
   | t :: ts => regions env earlier t.call :: (regionsBelow env earlier t ++ regionsBody env earlier ts)
 end
+
+/-! ### variadic keyword parameters, class shapes -/
+
+/-- every keyword argument that names no named parameter is a value of the `**` parameter — whatever it is called -/
+def kwChecks (k : VarKw) : List (A × Val) := (k.items.filter (fun kv => !k.named.contains kv.1)).map (fun kv => (k.ann, kv.2))
+
+def spliceSpec (checks : List (A × Val)) : Option VarKw → List (A × Val)
+  | none => checks
+  | some k => checks.take k.pos ++ kwChecks k ++ checks.drop k.pos
+
+def zipX : List TVId → List A → TVMap
+  | t :: ts, x :: xs => (t, x) :: zipX ts xs
+  | _, _ => []
+
+/-- an instance created as `Cls[X1, ..](...)`: the i-th type parameter of the class (`__parameters__`) stands for `Xi` — however the
+    class came by its parameters (an explicit `Generic[...]`, a typing alias base, a user generic base, several bases), and from the
+    first checked call on: the parameters of `__init__` and the calls `__init__` makes included.  Read off the DECLARATIONS (class
+    statement, creating expression), not off what the library finds on the instance. -/
+def shapeKind (sh : Shape) : StoreKind :=
+  if sh.params.isEmpty then .resetEachAccess else                      -- not a generic class
+  .genericInstance sh.params (match sh.declared with | some acts => zipX sh.params acts | none => [])
+
+/-- the type arguments are exactly these TypeVars, in this order -/
+def listsParams : List A → List TVId → Bool
+  | [], [] => true
+  | .tv t :: as, p :: ps => t == p && listsParams as ps
+  | _, _ => false
+
+/-- regions of recorded findings, read off the class statement alone (not off the translated code) -/
+def shapeRegions (sh : Shape) : List String :=
+  if sh.declared.isNone || sh.params.isEmpty then [] else
+  if sh.inInit then ["initOfGenericInstanceUnchecked"]                 -- `__orig_class__` is set after `__init__` has returned
+  else if !sh.genericInBases then ["genericSubclassNotRecognised"]
+  else if !(match sh.origBases.head? with | some b => listsParams b.2 sh.params | none => false) then ["genericParamsFromFirstBase"] else []
 
 end PedVerif.TypeVars.Spec
